@@ -25,7 +25,7 @@ TAU = {"f64": 1e-7, "f32": 5e-3}
 
 
 def gen_cases(tier, seed):
-    nrand = 4 if tier == "quick" else 80
+    nrand = 4 if tier == "quick" else 240
     pols = ["fresh", "randn1", "zero", "extreme"] if tier == "quick" else zoo.POLICIES
     cases = []
     for fam in zoo.ALL_FAMS:
@@ -43,7 +43,7 @@ def gen_cases(tier, seed):
                               "cost": 8 if "umnn" in fam else (3 if len(cfg.get("shape", [1])) == 3 else 1)})
                 if cfg.get("cache") and pol not in ("zero", "extreme") and fam != "conv1x1x":
                     cases.append(dict(cases[-1], order="inverse_first"))
-    nb = 4 if tier == "quick" else 48
+    nb = 4 if tier == "quick" else 120
     for fam in ("linear", "quadratic", "cubic", "rq"):
         for bi, bx in enumerate(splineref.BOXES):
             for rep in range(nb):
